@@ -14,25 +14,25 @@ CLAIMED = {
         "DESIGN.md 4.1",
     ),
     "C02": (
-        "static byte-conservation analysis of the framer: accumulator discipline (append-once on the success edge, no stale buffer), return-all / push-back pairing, exact frame extent by affine loop invariants and callee ensures, FIFO push-back structure, forward-all/close-once path rules, Kahn-determinism effect check",
+        "static byte-conservation analysis of the framer: accumulator discipline (append-once on the success edge, no stale buffer), return-all / push-back pairing, exact frame extent by affine loop invariants and callee ensures, FIFO push-back structure, forward-all/close-once path rules, Kahn-determinism effect check; composed with the no-panic obligations (affine bounds engine of C07) of everything reachable from the stream handler",
         "Decides losslessness structurally on every CFG path of the framer (all byte streams, all truncation points, all channel capacities/timings via determinism of the sequential stage).",
         "append/slice/channel semantics; lemma L-helper-pure (premises re-verified each run)",
         "DESIGN.md 4.2",
     ),
     "C03": (
-        "static layout and exit-site analysis: leader field reads and gates, exact L+6 byte count, no content-dependent exit, junk delimiting only at 0xD3/EOF, rejection sites enumerated and matched against the five standard reasons, plus the C02 conservation rules",
+        "static layout and exit-site analysis: leader field reads and gates, exact L+6 byte count, no content-dependent exit, junk delimiting only at 0xD3/EOF, rejection sites enumerated and matched against the five standard reasons, plus the C02 conservation rules; composed with the no-panic obligations (affine bounds engine of C07) of everything reachable from the stream handler",
         "Decides that frames are delimited by their own length field only and rejected only for standard reasons, on all paths; segment equality follows from conservation + delimiting.",
         "bit reader and CRC arithmetic trusted",
         "DESIGN.md 4.3",
     ),
     "C12": (
-        "static path/dominance rules: CRC-failure exit returns the whole candidate as one non-RTCM message, no content-dependent exit or push-back while a candidate is read, leader-only rejection sites of the five-byte helper, CRC gate completeness, week-state changes dominated by the CRC-success edge, C02 conservation",
+        "static path/dominance rules: CRC-failure exit returns the whole candidate as one non-RTCM message, no content-dependent exit or push-back while a candidate is read, leader-only rejection sites of the five-byte helper, CRC gate completeness, week-state changes dominated by the CRC-success edge, C02 conservation; composed with the no-panic obligations of the stream handler",
         "Decides that a CRC failure cannot move a frame boundary and costs exactly the candidate frame, on every path.",
         "the corrupted frame's CRC differs (2^-24 residual inherent to CRC)",
         "DESIGN.md 4.12",
     ),
     "C04": (
-        "static bit-layout extraction (order, width, signedness, multiplicity, contiguity, destination field of every bit read) compared with the oracle layout; structural checks of mask expansion and cell attachment; information-flow analysis for padding non-interference; rejection-site enumeration; type-domain partition for the family gates",
+        "static bit-layout extraction (order, width, signedness, multiplicity, contiguity, destination field of every bit read) compared with the oracle layout; structural checks of mask expansion and cell attachment; information-flow analysis for padding non-interference; rejection-site enumeration; type-domain partition for the family gates; successful returns dominated by complete reader loops and assembled from the three readers; capacity-from-length check of the overrun exit; composed with the no-panic obligations of the two family decoders",
         "Decides that the MSM4/MSM7 decoders read the standard's layout into the right fields for every mask shape and that the result cannot depend on trailing padding; value-level bit arithmetic is C14's (not claimed).",
         "bit reader correct (C14); oracle layout transcribed from the bundled RTKLIB decoder",
         "DESIGN.md 4.4",
@@ -44,7 +44,7 @@ CLAIMED = {
         "DESIGN.md 4.5",
     ),
     "C06": (
-        "static dataflow/dominance rules: lost-update (copy-of-receiver) analysis, per-constellation field separation, type-dispatch table extraction, no-store-on-error paths, strict rollover comparison, result-shape rule of the Glonass converter, state changes only after the CRC gate, constant evaluation",
+        "static dataflow/dominance rules: lost-update (copy-of-receiver) analysis, per-constellation field separation, type-dispatch table extraction, no-store-on-error paths, strict rollover comparison, result-shape rule of the Glonass converter, state changes only after the CRC gate, constant evaluation; must-pass rule: the remembered timestamp is stored on every successful path",
         "Decides structural necessary conditions of the week bookkeeping (state persistence, constellation separation, dispatch tables over the whole type domain, no state write on error paths, strict rollover test with +7 days, offset/limit constants). Does not decide numerical equality of reported times.",
         "time.Time arithmetic and calendar trusted; oracle constants from the property statement",
         "DESIGN.md 4.6",
@@ -56,67 +56,67 @@ CLAIMED = {
         "DESIGN.md 4.7",
     ),
     "C08": (
-        "static dimensional/fixed-point typing of the formula methods over SSA (unit, binary exponent, decimal exponent, sign, bit ranges for |), sentinel constants against the layout widths, marker tests (==/!= against exactly the field's marker), zero-result guards, numeric constants, frequency-table partition over all signal ids, operand ownership (no package-level storage in the cell packages)",
+        "static dimensional/fixed-point typing of the formula methods over SSA (unit, binary exponent, decimal exponent, sign, bit ranges for |), sentinel constants against the layout widths, marker tests (==/!= against exactly the field's marker), zero-result guards, numeric constants, frequency-table partition over all signal ids, operand ownership (no package-level storage in the cell packages); parameter-dependence analysis of the shared scale helpers and of the wavelength dispatcher",
         "Decides for all field values that each formula has the standard's scale/unit/sign and that invalid markers are handled as stated; floating-point rounding is not computed.",
         "field units from the oracle (RTCM DF definitions); documented frequency table taken as given",
         "DESIGN.md 4.8",
     ),
     "C09": (
-        "static concurrency-structure analysis: channel close-site ownership, single-sender, fan-out path rule, completion-on-close dominance, termination chain, go-operand confinement, Kahn-determinism effect check, forward-once and transient-gap (EOF clock / error classification) rules of the reader stage",
+        "static concurrency-structure analysis: channel close-site ownership, single-sender, fan-out path rule, completion-on-close dominance, termination chain, go-operand confinement, Kahn-determinism effect check, forward-once and transient-gap (EOF clock / error classification) rules of the reader stage; fresh-buffer and retained-reference rules for delivered messages; configuration accessors as projections",
         "Decides the ownership/ordering/completion/confinement discipline that makes the pipeline schedule-independent (all schedules, all chunkings): one closer per channel, one sender per channel, synchronous in-order fan-out of the received value to every non-nil consumer, return only on closed channel, no shared mutable state. Does not execute schedules.",
         "Go channel semantics and memory model trusted; consumers supplied by callers are outside",
         "DESIGN.md 4.9",
     ),
     "C11": (
-        "static happens-before (join) analysis on SSA CFG: signal-after-last-write (deferred calls in LIFO order, Flush/Sync count as writes), wait-on-every-return-path, close-before-wait, WaitGroup.Add-before-go; consumer-loop path rules",
+        "static happens-before (join) analysis on SSA CFG: signal-after-last-write (deferred calls in LIFO order, Flush/Sync count as writes), wait-on-every-return-path, close-before-wait, WaitGroup.Add-before-go; consumer-loop path rules; use-site rule: the entry point leaves the writer alone between the first go statement and the last join",
         "Decides whether a close->wait join exists between every writer goroutine and every return of the entry point: with it no schedule can lose output, without it some schedule does. All schedules and writer latencies are covered by the happens-before argument, not sampled.",
         "writer.Write is synchronous (true of os.Stdout, files, bytes.Buffer); Go memory model",
         "DESIGN.md 4.11",
     ),
     "C10": (
-        "static consumer-loop path rules (filter gate, write-once, RawData operand), wiring-table extraction (which consumer gets which writer under which switch, fan-out list membership), composition with the C01/C03/C09 rule sets, join analysis for all consumer goroutines",
+        "static consumer-loop path rules (filter gate, write-once, RawData operand), wiring-table extraction (which consumer gets which writer under which switch, fan-out list membership), composition with the C01/C03/C09 rule sets, join analysis for all consumer goroutines; reader stage forward-every-byte-once path rule; no-panic obligations of the stream handler",
         "Decides the filter/wiring/join structure of rtcmfilter on every path and schedule, composed with the framing rules; numerical equality of output and input frames is implied, not replayed.",
         "dailylogger dependency; CRC arithmetic at the pinned version",
         "DESIGN.md 4.10",
     ),
     "C13": (
-        "static classification of every return of the file handler by its dominating conditions (retryable vs fatal, zero tolerance, tolerance elapsed), forward-once path rule with the bufio short-read argument, EOF-clock phi analysis (cleared on success, started only when clear), close/flush rules",
+        "static classification of every return of the file handler by its dominating conditions (retryable vs fatal, zero tolerance, tolerance elapsed), forward-once path rule with the bufio short-read argument, EOF-clock phi analysis (cleared on success, started only when clear), close/flush rules; configuration accessors as projections; single-sender/confinement rules for the framer goroutine",
         "Decides the retry structure for all placements of EOF/timeout results: which conditions stop the handler, that every byte read is forwarded exactly once, that the partial frame is flushed and the channel closed.",
         "bufio.Reader.Read contract for short destinations; real time not modelled",
         "DESIGN.md 4.13",
     ),
     "C15": (
-        "static effect/mod analysis: package variables written only in init, no store through raw frame buffers, display stores confined to Readable/ErrorMessage and idempotent (no read-modify-write), handler holds no references, by-value fan-out before any display, no reads of mutable package state",
+        "static effect/mod analysis: package variables written only in init, no store through raw frame buffers, display stores confined to Readable/ErrorMessage and idempotent (no read-modify-write), handler holds no references, by-value fan-out before any display, no reads of mutable package state; Copy independence; dependence analysis of error exits of the time converters on handler state",
         "Decides absence of hidden state and of shared mutable data on the decode/display path for all orders, repetitions and concurrent handlers (effect analysis over every reachable function).",
         "fmt/hex/time formatting is pure; time lines excluded by the property",
         "DESIGN.md 4.15",
     ),
     "C16": (
-        "static path rules (read->write->send exactly once, in order, same buffer and n), private-copy dataflow, consumer-loop rule, join analysis",
+        "static path rules (read->write->send exactly once, in order, same buffer and n), private-copy dataflow, consumer-loop rule, join analysis; every-path rule: the copy loop returns only over an err == io.EOF edge",
         "Decides the tee structure of rtcmlogger on every CFG path: each block read is written to stdout and sent as a fresh copy to the recorder exactly once, the recorder writes every block and is joined before start returns. Does not decide dailylogger's file handling.",
         "os.File Read/Write contracts; dailylogger is a dependency",
         "DESIGN.md 4.16",
     ),
     "C17": (
-        "static information-flow (taint) analysis: start-time parameter as source, week quantiser as sanitiser, Handler fields as sinks; structural check of the quantiser; result-shape rule of the Glonass converter (no history-dependent re-basing)",
+        "static information-flow (taint) analysis: start-time parameter as source, week quantiser as sanitiser, Handler fields as sinks; structural check of the quantiser; result-shape rule of the Glonass converter (no history-dependent re-basing); call-graph rule: the start time is handed on unchanged from the entry points to handler.New",
         "Decides non-interference of the start time modulo the week quantiser for all start times: any unquantised flow into handler state is reported with its def-use chain. Calendar arithmetic of the quantiser is assumed.",
         "time package semantics; quantiser granularity argued structurally (Sunday 00:00:00 UTC) and tested by the suite",
         "DESIGN.md 4.17",
     ),
     "C19": (
-        "static path rules on both relay loops (read->peer write exactly once, same buffer and n, fresh buffer, no write deadline while the write result is ignored), non-mutation scan, taint analysis of traffic-derived text to the status page with the escape helper as sanitiser, provenance (who may call Add / send on the byte channel)",
+        "static path rules on both relay loops (read->peer write exactly once, same buffer and n, fresh buffer, no write deadline while the write result is ignored), non-mutation scan, taint analysis of traffic-derived text to the status page with the escape helper as sanitiser, provenance (who may call Add / send on the byte channel); no relay loop closes a connection; composed with all rules of C18 for the queue the parser side feeds",
         "Decides the relay and escaping structure on every CFG path and every flow into the page; TCP/HTTP behaviour is outside.",
         "net.Conn Read/Write contracts; statusreporter dependency; escape helper adequacy = replaces '<' and '>' throughout",
         "DESIGN.md 4.19",
     ),
     "C18": (
-        "static lock-discipline analysis (every field access dominated by the queue's lock, writes under the write lock, helpers called with the lock held), encapsulation check, structural FIFO rules (monotone key, evict-before-insert with >=, ascending sorted snapshot)",
+        "static lock-discipline analysis (every field access dominated by the queue's lock, writes under the write lock, helpers called with the lock held), encapsulation check, structural FIFO rules (monotone key, evict-before-insert with >=, ascending sorted snapshot); call-site rule: every Add is synchronous",
         "Decides for all operation sequences and interleavings the structural conditions of a bounded FIFO under a readers-writer lock; linearizability follows from atomic critical sections and is not enumerated.",
         "sync.RWMutex, sort.Ints and map semantics trusted",
         "DESIGN.md 4.18",
     ),
     "C20": (
-        "static table extraction: set-wise abstract interpretation of every classifier over the complete 4098-value type domain, compared with sibling tables and the oracle; guard analysis of the display entry point (analysis skipped only when already done)",
+        "static table extraction: set-wise abstract interpretation of every classifier over the complete 4098-value type domain, compared with sibling tables and the oracle; guard analysis of the display entry point (analysis skipped only when already done); composed with the leader-type layout rule and the stream-delivers-decoder-result rules of C01",
         "All classification tables are extracted from the SSA of the current source and compared over the whole domain {-2,-1,0..4095}; exhaustive over message types. Decides table agreement, not that the reached decoders behave.",
         "go/types+go/ssa model of the source; oracle sets in oracles/classification.json; an unrecognised predicate form fails the check (sound, incomplete)",
         "DESIGN.md 4.20",
